@@ -21,7 +21,7 @@ suite green (288/288):
   refactor produces: an off-by-one at a threshold, a dropped state guard, two
   swapped fields, one DFA cell, ...). Mutants that turned out to be equivalent
   were removed, not kept as "misses".
-* `seeded/<ID>/` - one change per property made by an **independent agent** that
+* `seeded/<ID>/`, `seeded/<ID>b/`, `seeded/<ID>c/` - three rounds of one change per property, each made by an **independent agent** that
   was given only the property text and a scratch worktree (nothing from
   `/verif`), asked for a change that needs something specific to manifest (an
   interleaving, a fault at a particular point, a multi-step sequence, an unusual
@@ -62,6 +62,30 @@ First contact, quick tier: 12 caught at once (C02b C03b C05b C06b C08b C09b C10b
 | C16b | receive limits not enforced while the local close handshake is in progress | limits were only exercised in OPEN state | a quarter of the cases call `sendClose()` first; the over-limit header must drop the transport, at-limit messages still arrive |
 | C19b | `AuthScram.on_welcome` accepts a WELCOME without any processed CHALLENGE (signature over empty inputs) | server signature only checked after a real exchange | fresh authenticator x {genuine signature of another exchange, HMAC of empty inputs, zeros} must not be accepted |
 | C20b | `KeyRing` memoises URI->key: stale key after `set_key()` for a covering prefix | keyrings were fully configured before first use, and both ends being stale is self-consistent | "rekey" layout: warm-up exchange, `set_key` on both ends, then the message must open under the *new* key with PyNaCl directly and ciphertexts under the superseded key are refused |
+
+A **third round** (`seeded/<ID>c/`) asked for bugs that need a *history* (state left over from an earlier operation, a
+particular order of events, timing relative to a timer) in a part of the property the first two seeds left untouched.
+First contact, quick tier: 10 caught at once (C01c C04c C05c C08c C09c C12c C14c C15c C16c C18c), 10 missed:
+
+| prop | seeded change needs | gap in my check | strengthening |
+|---|---|---|---|
+| C02c | close frame reason validated with the connection's shared UTF-8 validator: a valid Close arriving inside a fragmented text message that stopped mid code point is failed with 1007 | control frames inside fragmented messages were pings/pongs only, and a peer close ended the judgement | the peer's close may arrive between fragments; a *valid* peer close must not be answered with a failure status, nothing may escape |
+| C03c | `unserialize` caches the whole wire payload on each parsed message: a received message re-serialised alone carries the whole batch | messages were only serialised once | forwarding trip: every received message object goes through the same serializer instance again and must come back as exactly that message |
+| C06c | requests issued from the errback of a request failed at session end are wiped without completion (Twisted) | no re-entrant API use from errbacks; worse, my tracker was registered before the application errback and swallowed the failure under Twisted, so errbacks never fired there | errbacks may issue a new call (must fail at once or later, never hang); application errback registered first and passes the failure on |
+| C07c | 503 rejection decrements the connection count that `connectionLost` decrements again: after a rejection more peers than `maxConnections` are admitted | the limit was checked for single handshakes with a preset count | history job on one factory: peers connect (valid/invalid), are admitted or refused, go away; a valid handshake completes iff fewer than N are established |
+| C10c | result of a pending invocation dropped silently when its procedure was unregistered meanwhile | registrations were never removed | `unregister` step (router confirms); running invocations must still be answered |
+| C11c | `@wamp.subscribe` caches the parsed pattern per URI: a later handler decorated for the same URI inherits the first one's options | decorated objects had no options | decorated object with two methods on the same topic, one with `details_arg`, one plain |
+| C13c | asyncio WebSocket adapter (same root cause as C01b) seen through WAMP traffic | C13 traffic ran the loop after every read | burst reads in the C13 traffic schedules |
+| C17c | a data frame received while CLOSING no longer counts as an answer to an outstanding auto-ping | pings were only exercised in OPEN state or started after the close | scenario: ping outstanding, application calls `sendClose`, peer answers in time by pong/data and sends its close reply after the ping deadline |
+| C19c | CRA derived key cached per salt: a later challenge with another iteration count/key length is signed with the stale key | one challenge per authenticator | the authenticator is re-used for four further challenges (iterations+1, keylen+1, other challenge, same again) |
+| C20c | tampered / foreign progressive results still reach `on_progress` | progressive results were not generated under encryption | calls with `on_progress`: genuine chunk recovered exactly; every 2nd single-byte alteration, swapped procedure URI and foreign key must not reach the handler |
+
+Two more general lessons went into the harness: (i) a seeded change that makes a failure depend on the library's own
+randomness (`os.urandom` nonce, `random.seed()` in factories) showed up as a Hypothesis *Flaky* report, i.e. exit 2; the
+randomness is now part of the drawn case where it matters (C14 jitter, C19 SCRAM nonce), and an oracle failure that was
+observed but did not reproduce on re-execution is reported as a violation (it happened on real code) instead of a harness
+error; (ii) exceptions raised by a send API used in its documented order, and a connection ending in the middle of valid
+traffic, are violations of C01 rather than harness errors (found through own mutant C15/m1).
 
 One agent (seed2-C02) also reported, as a side observation on the *unmodified* tree, that with failByDrop off a
 violating frame header followed by further reads makes the endpoint drop TCP right after its 1002 close frame,
